@@ -236,8 +236,13 @@ class MultiStepReplayBuffer(ReplayBuffer):
         n_step_reward: torch.Tensor = first_transition[self.reward_key]
         n_step_reward = n_step_reward.clone()
 
-        # Get the last next_state and done flag
-        for i, transition in enumerate(list(self.n_step_buffer)[1:]):
+        # Get the last next_state and done flag. An episode that ends on the first
+        # transition of the window has no later steps to accumulate.
+        later_transitions = list(self.n_step_buffer)[1:]
+        if first_transition[self.done_key].bool().any():
+            later_transitions = []
+
+        for i, transition in enumerate(later_transitions):
             # Add discounted reward
             reward: torch.Tensor = transition[self.reward_key]
             n_step_reward += reward * (self.gamma ** (i + 1))
